@@ -69,7 +69,10 @@ type proc struct {
 	done   chan struct{}
 }
 
-func startMacat(args ...string) (*proc, error) {
+func startMacat(args ...string) (*proc, error) { return startMacatIn(nil, args...) }
+
+// startMacatIn starts macat with the given standard input (nil = /dev/null).
+func startMacatIn(stdin *os.File, args ...string) (*proc, error) {
 	r, w, err := os.Pipe()
 	if err != nil {
 		return nil, err
@@ -78,6 +81,9 @@ func startMacat(args ...string) (*proc, error) {
 	p.cmd = exec.Command(macatPath(), args...)
 	p.cmd.Stdout = w
 	p.cmd.Stderr = &p.errBuf
+	if stdin != nil {
+		p.cmd.Stdin = stdin
+	}
 	p.t0 = time.Now()
 	if err := p.cmd.Start(); err != nil {
 		_ = r.Close()
